@@ -16,6 +16,9 @@ STR_FORMS = ["''", '""', "'a'", '"a\'b"', "'''tri'''", '"""a\nb"""', "r'\\n'", "
              "'a' \"b\" '''c'''", "b'a' b'b'", "'\\ud800'", "'\\U0001F600'", "'\\t\\r\\n\\a\\b\\f\\v\\\\\\'\\\"'",
              "f''", "f'{a}'", "f'{a!r:>{b}}'", "f'{a=}'", "f'{{}}'", "f'{a:{b}.{c}}'", "rf'{a}\\n'", "f'{(lambda: a)()}'",
              "f'{a if b else c}'", "f\"{'nested'}\"", "f'{f\"{a}\"}'", "f'{a!s}{b!a}'", "'%s' % a", "'{}'.format(a)"]
+STR_CONCAT = ["'p'", '"q"', "u'u'", "U'V'", r"r'\d'", "R'r'", "f'{a}'", "F'{b!r}'", r"rf'{a}\n'", "fr'{c}'", "\'\'\'t\'\'\'",
+              r"'\xe9'", r"u'€'", "f'{{x}}'", "''", "f''", r"'\N{BULLET}'", "f'{a:>{b}}'"]
+BYTES_CONCAT = ["b'p'", 'B"q"', r"br'\d'", "rb'r'", r"b'\xff'", "b''", "Rb'x'"]
 BIN_OPS = ["+", "-", "*", "/", "//", "%", "**", "@", "<<", ">>", "&", "|", "^", "and", "or", "==", "!=", "<", "<=", ">", ">=",
            "is", "is not", "in", "not in"]
 AUG_OPS = ["+=", "-=", "*=", "/=", "//=", "%=", "**=", "@=", "<<=", ">>=", "&=", "|=", "^="]
@@ -174,6 +177,11 @@ class Syn:
             return self.pick(FLOAT_FORMS)
         if c <= 7:
             self.kinds.add("strlit")
+            if self.chance(0.25):
+                # implicit concatenation of literals with different prefixes / quote styles (str family or bytes family)
+                self.kinds.add("strconcat")
+                fam = STR_CONCAT if self.chance(0.8) else BYTES_CONCAT
+                return " ".join(self.pick(fam) for _ in range(self.irange(2, 4)))
             return self.pick(STR_FORMS)
         return self.pick(["None", "True", "False", "...", "()", "[]", "{}", "NotImplemented", "__name__", "__debug__"])
 
